@@ -363,14 +363,14 @@ func (db *RockDB) ltrim2(ts int64, key []byte, startP, stopP int64) error {
 	if stop < 0 {
 		stop = llen + stop
 	}
+	if start < 0 {
+		start = 0
+	}
 	newLen := int64(0)
-	// whole list deleted
+	// whole list deleted (also when the range ends before the head)
 	if start >= llen || start > stop {
 		db.lDelete(ts, key, db.wb)
 	} else {
-		if start < 0 {
-			start = 0
-		}
 		if stop >= llen {
 			stop = llen - 1
 		}
